@@ -10,6 +10,7 @@ import (
 	"fmt"
 	"go/ast"
 	"go/token"
+	"go/types"
 	"strings"
 )
 
@@ -1896,4 +1897,197 @@ func init() {
 			r.check(closesStop, "writer is stopped after the stream loop", pos, "handleStreams(); ...; close(sc.writeStop)", "writeStop is no longer closed after the stream loop has left: the write loop never drains and stops, and every later sc.write blocks")
 		},
 	})
+}
+
+// ---------------------------------------------------------------- error polarity
+
+func init() {
+	register(&Rule{
+		Name: "error-polarity", Props: []string{"C12", "C16", "C17", "C09", "C10", "C01", "C02"}, Engine: "AST", Floor: 150,
+		Doc: "every test of an error value against nil has the polarity its branch needs: the branch that runs when the error is nil does not return it, hand it to an error sink or format it (it would report success, or a nil error, for a failure); the branch that runs when it is non-nil does not overwrite it with the result of another call; and an error assigned from a call is looked at before it is overwritten or the function ends",
+		Run: ruleErrorPolarity,
+	})
+}
+
+func ruleErrorPolarity(p *Prog, r *Out) {
+	errType := types.Universe.Lookup("error").Type()
+	isErr := func(e ast.Expr) bool {
+		t := p.infoFor(e).TypeOf(e)
+		return t != nil && types.Identical(t, errType)
+	}
+	sinks := map[string]bool{"(*serverConn).writeError": true, "(*Conn).setLastErr": true, "(*Ctx).resolve": true, "(*Conn).finish": true}
+	mentions := func(n ast.Node, name string) bool { return mentionsIdent(n, name) }
+	var names []string
+	for n := range p.funcDecls {
+		names = append(names, n)
+	}
+	sortStrings(names)
+	tests := 0
+	for _, fn := range names {
+		fd := p.funcDecls[fn]
+		if fd.Body == nil || strings.HasSuffix(p.Fset.Position(fd.Pos()).Filename, "_test.go") {
+			continue
+		}
+		ord := map[string]int{}
+		key := func(kind, v string) string {
+			k := fn + " " + kind + " " + v
+			ord[k]++
+			if ord[k] > 1 {
+				k += fmt.Sprintf("#%d", ord[k])
+			}
+			return k
+		}
+		ast.Inspect(fd.Body, func(n ast.Node) bool {
+			ifs, ok := n.(*ast.IfStmt)
+			if !ok {
+				return true
+			}
+			for _, a := range conjuncts(ifs.Cond, true) {
+				b, ok := ast.Unparen(a.Cond).(*ast.BinaryExpr)
+				if !ok || (b.Op != token.EQL && b.Op != token.NEQ) || p.text(b.Y) != "nil" {
+					continue
+				}
+				id, ok := ast.Unparen(b.X).(*ast.Ident)
+				if !ok || !isErr(id) {
+					continue
+				}
+				tests++
+				nilBranch := (b.Op == token.EQL) == a.Val // the if-body runs when the error is nil
+				if nilBranch {
+					// the nil error is returned, sunk or formatted
+					bad := ""
+					ast.Inspect(ifs.Body, func(m ast.Node) bool {
+						switch x := m.(type) {
+						case *ast.ReturnStmt:
+							for _, res := range x.Results {
+								if rid, ok := ast.Unparen(res).(*ast.Ident); ok && rid.Name == id.Name {
+									// `return err` directly under `err == nil`: fine only when that is the whole point (return nil); flag when other results are non-trivial
+									if len(x.Results) > 1 || len(ifs.Body.List) > 1 {
+										bad = "returns it"
+									}
+								}
+							}
+						case *ast.CallExpr:
+							if sinks[p.calleeOf(x)] {
+								for _, arg := range x.Args {
+									if mentions(arg, id.Name) {
+										bad = "hands it to " + p.calleeOf(x)
+									}
+								}
+							}
+							// the nil error handed to anything as the error it is (errors.Is/As, a constructor, a logger)
+							for _, arg := range x.Args {
+								if aid, ok := ast.Unparen(arg).(*ast.Ident); ok && aid.Name == id.Name {
+									bad = "passes it to " + p.calleeOf(x)
+								}
+							}
+							if sel, ok := x.Fun.(*ast.SelectorExpr); ok && sel.Sel.Name == "Error" && mentions(sel.X, id.Name) {
+								bad = "calls its Error method"
+							}
+						case *ast.AssignStmt:
+							// a fresh assignment to the variable ends its nil-ness (after its right-hand side was looked at)
+							for _, l := range x.Lhs {
+								if lid, ok := l.(*ast.Ident); ok && lid.Name == id.Name {
+									for _, rhs := range x.Rhs {
+										ast.Inspect(rhs, func(k ast.Node) bool {
+											if c, ok := k.(*ast.CallExpr); ok {
+												if sel, ok := c.Fun.(*ast.SelectorExpr); ok && sel.Sel.Name == "Error" && mentions(sel.X, id.Name) {
+													bad = "calls its Error method"
+												}
+												for _, arg := range c.Args {
+													if aid, ok := ast.Unparen(arg).(*ast.Ident); ok && aid.Name == id.Name {
+														bad = "passes it to " + p.calleeOf(c)
+													}
+												}
+											}
+											return true
+										})
+									}
+									return false
+								}
+							}
+						}
+						return bad == ""
+					})
+					r.check(bad == "", key("nil-branch of", id.Name), p.pos(ifs.Pos()), "the branch taken when the error is nil does not treat it as an error",
+						fmt.Sprintf("in %s the branch of `%s` that runs when %s is nil %s: a failure goes unreported (the non-nil case falls through as success) or a nil error is reported as the failure", fn, p.text(ifs.Cond), id.Name, bad))
+				} else {
+					// the non-nil error is overwritten by another call's result
+					bad := ""
+					for _, s := range ifs.Body.List {
+						if as, ok := s.(*ast.AssignStmt); ok && as.Tok == token.ASSIGN && len(as.Rhs) == 1 {
+							if _, isCall := as.Rhs[0].(*ast.CallExpr); isCall {
+								for _, l := range as.Lhs {
+									if lid, ok := l.(*ast.Ident); ok && lid.Name == id.Name && !mentions(as.Rhs[0], id.Name) {
+										bad = p.text(as)
+									}
+								}
+							}
+						}
+					}
+					r.check(bad == "", key("non-nil branch of", id.Name), p.pos(ifs.Pos()), "the branch taken when the error is set does not overwrite it",
+						fmt.Sprintf("in %s the branch of `%s` that runs when %s is set overwrites it with `%s`: the first failure is lost and the follow-up step runs only after a failure", fn, p.text(ifs.Cond), id.Name, bad))
+				}
+			}
+			return true
+		})
+		// an error assigned from a call is looked at before it is overwritten
+		ast.Inspect(fd.Body, func(n ast.Node) bool {
+			var list []ast.Stmt
+			switch x := n.(type) {
+			case *ast.BlockStmt:
+				list = x.List
+			case *ast.CaseClause:
+				list = x.Body
+			case *ast.CommClause:
+				list = x.Body
+			default:
+				return true
+			}
+			for i, s := range list {
+				as, ok := s.(*ast.AssignStmt)
+				if !ok || len(as.Rhs) != 1 {
+					continue
+				}
+				if _, isCall := as.Rhs[0].(*ast.CallExpr); !isCall {
+					continue
+				}
+				for _, l := range as.Lhs {
+					lid, ok := l.(*ast.Ident)
+					if !ok || lid.Name == "_" || !isErr(lid) {
+						continue
+					}
+					// named results and variables used later in an enclosing construct are fine: look for any later mention in the function
+					used := false
+					for _, t := range list[i+1:] {
+						if mentions(t, lid.Name) {
+							used = true
+							break
+						}
+					}
+					if !used {
+						// a use after the enclosing block (loop condition, named result, return at the end)
+						after := false
+						ast.Inspect(fd, func(m ast.Node) bool {
+							if mid, ok := m.(*ast.Ident); ok && mid.Name == lid.Name && mid.Pos() > as.End() {
+								after = true
+							}
+							if fs, ok := m.(*ast.ForStmt); ok && fs.Cond != nil && mentions(fs.Cond, lid.Name) && fs.Pos() < as.Pos() && as.End() < fs.End() {
+								after = true
+							}
+							return true
+						})
+						used = after
+					}
+					tests++
+					r.check(used, key("result of", squash(p.text(as.Rhs[0]))), p.pos(as.Pos()), "the error is examined after the call",
+						fmt.Sprintf("in %s the error assigned by `%s` is never looked at: the failure is dropped and the code carries on as if the call had succeeded", fn, p.text(as)))
+				}
+			}
+			return true
+		})
+	}
+	if tests < 100 {
+		r.bad("error tests found", "?", fmt.Sprintf("only %d error tests found", tests))
+	}
 }
